@@ -195,13 +195,13 @@ Proof.
   destruct (str_eqb raw k); intros H; [injection H as <-; auto|auto].
 Qed.
 
-Lemma deserialize_sound o (NN : no_nan o) t :
-  sane_ty t = true ->
+Lemma deserialize_sound_gen o t :
+  (no_nan o \/ no_bounded_float t = true) -> sane_ty t = true ->
   forall s v, deserialize o t s = Ok v ->
     (v = VNone /\ ty_optional t = true /\ raw_empty t s = true) \/ (v <> VNone /\ wf o t v).
 Proof.
   unfold deserialize.
-  induction t; intros SANE s v H; cbn [deserialize_gen] in H; cbn [ty_optional raw_empty wf].
+  induction t; intros NN SANE s v H; cbn [deserialize_gen] in H; cbn [ty_optional raw_empty wf].
   - (* String *)
     unfold deser_string in H. apply req_or_none_ok in H. destruct H as [(-> & -> & E)|(E & H)]; [auto|].
     right. apply is_nil_false in E.
@@ -222,16 +222,22 @@ Proof.
     right. destruct (o_float o _) eqn:F; [|discriminate].
     destruct (fl_range_ok _ _ _) eqn:C; [|discriminate]. injection H as <-.
     split; [discriminate|]. cbn [sane_ty] in SANE. apply andb_true_iff in SANE. destruct SANE as [S1 S2].
-    apply fl_range_equiv; auto.
-    + intros ->. exact (NN _ F).
-    + destruct mn as [[]|]; cbn in S1; auto; discriminate.
-    + destruct mx as [[]|]; cbn in S2; auto; discriminate.
+    destruct NN as [NN|NB].
+    + apply fl_range_equiv; auto.
+      * intros ->. exact (NN _ F).
+      * destruct mn as [[]|]; cbn in S1; auto; discriminate.
+      * destruct mx as [[]|]; cbn in S2; auto; discriminate.
+    + cbn [no_bounded_float] in NB. destruct mn; [discriminate|]. destruct mx; [discriminate|]. reflexivity.
   - (* Boolean *)
     unfold deser_boolean in H. apply req_or_none_ok in H. destruct H as [(-> & -> & E)|(E & H)]; [auto|].
     right. destruct (mem_str _ true_values); [injection H as <-; split; [discriminate|exact I]|].
     destruct (mem_str _ false_values); [injection H as <-; split; [discriminate|exact I]|discriminate].
   - (* Pair *)
     cbn [sane_ty] in SANE. apply andb_true_iff in SANE. destruct SANE as [S1 S2].
+    assert (no_nan o \/ no_bounded_float t1 = true) as N1.
+    { destruct NN as [NN|NB]; [auto|]. cbn [no_bounded_float] in NB. apply andb_true_iff in NB. tauto. }
+    assert (no_nan o \/ no_bounded_float t2 = true) as N2.
+    { destruct NN as [NN|NB]; [auto|]. cbn [no_bounded_float] in NB. apply andb_true_iff in NB. tauto. }
     apply req_or_none_ok in H. destruct H as [(-> & -> & E)|(E & H)]; [auto|].
     right. destruct (is_nil sep); [discriminate|].
     assert (forall a b, rbind (deserialize_gen true o t1 (encode a))
@@ -240,7 +246,7 @@ Proof.
     { intros a b K. destruct (deserialize_gen true o t1 (encode a)) eqn:D1; cbn [rbind] in K; try discriminate.
       destruct (deserialize_gen true o t2 (encode b)) eqn:D2; cbn [rbind] in K; try discriminate.
       injection K as <-. split; [discriminate|]. cbn [wf].
-      apply (IHt1 S1) in D1. apply (IHt2 S2) in D2. split.
+      apply (IHt1 N1 S1) in D1. apply (IHt2 N2 S2) in D2. split.
       - destruct D1 as [(-> & O & _)|(_ & W)]; auto.
       - destruct D2 as [(-> & O & _)|(_ & W)]; auto. }
     destruct (split_once _ _) as [[a b]|]; [eauto|]. destruct optpair; [eauto|discriminate].
@@ -250,7 +256,7 @@ Proof.
     apply mapM_ok in M.
     assert (Forall (fun x => (x = VNone /\ ty_optional t = true) \/ wf o t x) vs) as FA.
     { clear H. induction M; constructor; auto.
-      apply (IHt SANE) in H. destruct H as [(-> & O & _)|(_ & W)]; auto. }
+      apply (IHt NN SANE) in H. destruct H as [(-> & O & _)|(_ & W)]; auto. }
     right. destruct (negb opt && _) eqn:C; [discriminate|]. injection H as <-.
     destruct unique; (split; [discriminate|]); cbn [wf]; (split; [reflexivity|]); split.
     + intros ->. cbn in C. now apply is_nil_false in C.
@@ -278,6 +284,20 @@ Proof.
     right. split; [discriminate|]. split; assumption.
   - injection H as <-. right. split; [discriminate|reflexivity].
 Qed.
+
+Lemma deserialize_sound o (NN : no_nan o) t :
+  sane_ty t = true ->
+  forall s v, deserialize o t s = Ok v ->
+    (v = VNone /\ ty_optional t = true /\ raw_empty t s = true) \/ (v <> VNone /\ wf o t v).
+Proof. apply deserialize_sound_gen. now left. Qed.
+
+(* for types without a bounded Float, soundness holds whatever float() answers *)
+Lemma deserialize_sound_float_free o t :
+  no_bounded_float t = true -> sane_ty t = true ->
+  forall s v, deserialize o t s = Ok v ->
+    (v = VNone /\ ty_optional t = true /\ raw_empty t s = true) \/ (v <> VNone /\ wf o t v).
+Proof. intros NB. apply deserialize_sound_gen. now right. Qed.
+
 
 (* The nan defect: with a float oracle that answers nan, a value outside the declared
    range is accepted. *)
